@@ -346,10 +346,12 @@ def run_axilcdc(case, rng):
     hostile = rng.randint(100, 400)
     bench = Bench(top, clocks={"a": 10, "b": 10}, cap=hostile + 6000, overrides=inj.overrides, scheduler=sched)
     bench.precommit_hooks = [inj.hook]
-    mm = bench.add(AXILMaster(m, writes, reads, rng, order=rng.choice(["together", "aw_first", "w_first"]), max_out=rng.choice([1, 2, 4]),
+    mm = bench.add(AXILMaster(m, writes, reads, rng, order=rng.choice(["together", "aw_first", "w_first"]), max_out=rng.choice([1, 2, 4, 8, 12]),
                               p_aw=rng.choice([1.0, 0.5]), p_w=rng.choice([1.0, 0.5]), p_ar=rng.choice([1.0, 0.5]),
-                              b_sched=make_sched(rng)[0], r_sched=make_sched(rng)[0], coop_from=hostile), "a")
-    bench.add(AXILSlave(s, rng, "mem", depth=4, aw_sched=make_sched(rng)[0], w_sched=make_sched(rng)[0], ar_sched=make_sched(rng)[0],
+                              # responses pile up behind a master that holds b/r.ready low for long (more than the crossing buffers)
+                              b_sched=make_sched(rng, rng.choice([None, None, "longstall"]), ratio=8)[0],
+                              r_sched=make_sched(rng, rng.choice([None, None, "longstall"]), ratio=8)[0], coop_from=hostile), "a")
+    bench.add(AXILSlave(s, rng, "mem", depth=rng.choice([4, 8, 16]), aw_sched=make_sched(rng)[0], w_sched=make_sched(rng)[0], ar_sched=make_sched(rng)[0],
                         lat=(0, 3), mem={i: x for i, x in enumerate(init)}, coop_from=hostile), "b")
     mons = []
     for ch in ("b", "r"):
